@@ -60,7 +60,8 @@ def main():
         for p in props:
             t0 = time.time()
             e2 = dict(os.environ, WTF_REPO=wt, VERIF_TIER=tier)
-            rc, out = sh(["/verif/check", p, "--tier", tier], cwd="/verif", env=e2, timeout=7200)
+            V = os.path.dirname(os.path.dirname(os.path.abspath(__file__)))   # the /verif tree this tool lives in (an evaluation clone when run from one)
+            rc, out = sh([os.path.join(V, "check"), p, "--tier", tier], cwd=V, env=e2, timeout=7200)
             lines = [l for l in out.split("\n") if l.startswith("VIOLATION") or l.startswith("OK ") or l.startswith("KNOWN-FINDING")]
             rp = None
             for l in lines:
